@@ -143,8 +143,9 @@ class StubNM(Cacheable):
     calculate_merge_cell_ranges = _NumbersModel.calculate_merge_cell_ranges
     recalculate_merged_cells = _NumbersModel.recalculate_merged_cells
 
-    def __init__(self):
-        self.table = Rec(base_data_store=Rec(merge_region_map=Rec(identifier=0)))
+    def __init__(self, nrows=0, ncols=0):
+        self.table = Rec(number_of_rows=nrows, number_of_columns=ncols,
+                         base_data_store=Rec(merge_region_map=Rec(identifier=0)))
         self.objects = StubObjects(self.table)
         self._merge_cells = {7: MergeCells()}
 
@@ -172,11 +173,12 @@ def _u32(eng, **kw):
     return Rec(**kw)
 
 
-def h12b_codec(r0, c0, nr, nc):
+def h12b_codec(r0, c0, nr, nc, slack_r, slack_c):
     """decode(encode(merge)) is the same rectangle, within the documented table limits"""
     assume(0 <= r0 and 0 <= c0 and 1 <= nr <= 3 and 1 <= nc <= 3 and not (nr == 1 and nc == 1))
     assume(r0 + nr <= MAX_ROW_COUNT and c0 + nc <= MAX_COL_COUNT)
-    w = StubNM()
+    # the table is exactly as large as the rectangle needs, or one row / column larger
+    w = StubNM(r0 + nr + (1 if slack_r else 0), c0 + nc + (1 if slack_c else 0))
     w._merge_cells[7].add_anchor(r0, c0, (nr, nc))
     w.recalculate_merged_cells(7)
     # a fresh reader over the written objects
@@ -198,8 +200,8 @@ HARNESSES = [
             bounds="every pair of disjoint rectangles in a 3x3 table, given as a list"),
     Harness("H12c", h12c_insert_after_merge, dict(r0=IntDom(), r1=IntDom(), start=IntDom(), at_end=BoolDom()),
             bounds="3x2 table, full-width merged rectangle of any row span, one row inserted at any index before/after it or at the end"),
-    Harness("H12b", h12b_codec, dict(r0=BVDom(20), c0=BVDom(10), nr=BVDom(2), nc=BVDom(2)),
-            bounds="origin anywhere within the documented limits (rows < 1 000 000, cols < 1000), size 1..3 x 1..3",
+    Harness("H12b", h12b_codec, dict(r0=BVDom(20), c0=BVDom(10), nr=BVDom(2), nc=BVDom(2), slack_r=BoolDom(), slack_c=BoolDom()),
+            bounds="origin anywhere within the documented limits (rows < 1 000 000, cols < 1000), size 1..3 x 1..3; rectangle touching the last row/column of the table or not",
             stubs=["object store / protobuf records replaced by attribute bags; CellID/TableSize packedData checked as uint32",
                    "owner-dependency (formula owner) merge records absent"],
             models={TSTArchives.CellID: _u32, TSTArchives.TableSize: _u32, TSTArchives.CellRange: _u32}),
